@@ -166,6 +166,13 @@ def run(ctx):
         raise AnalysisError(f'deserialize_instructions: statements before the decoding loop outside the analysed subset: {d}')
     ctx.require(len(pre) == 1, 'deserialize_instructions: the statements before the decoding loop branch')
     env1 = dict(pre[0].env)
+    # module-level tables of constants (a tuple of parameter names, say) are what their names denote
+    for st in dmod.tree.body:
+        if isinstance(st, (ast.Assign, ast.AnnAssign)) and st.value is not None and isinstance(st.value, (ast.Tuple, ast.List)) \
+                and all(isinstance(x, ast.Constant) for x in st.value.elts):
+            t_ = st.targets[0] if isinstance(st, ast.Assign) else st.target
+            if isinstance(t_, ast.Name) and t_.id not in env1:
+                env1[t_.id] = ('tuple', tuple(('const', x.value) for x in st.value.elts))
     reader_classes = {v[1][1] for v in env1.values() if isinstance(v, tuple) and v and v[0] == 'call' and v[1][0] == 'name'
                       and v[1][1] in dmod.classes}
 
@@ -247,6 +254,24 @@ def run(ctx):
             and tuple(byte_p[0].conds[0]) in before and steps == [('Add', IDX, ('const', 1))] \
             and not any(e.kind in ('aug', 'setattr', 'setitem') for e in none_p[0].events)
     ctx.ob('decode-loop', 'end-of-input-is-none', ok_mb, f'{mb.name} must return None exactly at end of input', py.where('deserialize', mb))
+    # the cursor starts at the first byte
+    if ok_mb:
+        start = None
+        if IDX[0] in ('name', 'nonlocal', 'free') and isinstance(IDX[1], str):
+            start = env1.get(IDX[1])
+        elif IDX[0] == 'attr' and IDX[1] == ('param', 'self'):
+            owner_ = next((c for c in dmod.classes.values() if any(g is mb for g in c.methods.values())), None)
+            init_ = owner_.methods.get('__init__') if owner_ is not None else None
+            if init_ is not None:
+                vals = [n.value for n in ast.walk(init_) if isinstance(n, (ast.Assign, ast.AnnAssign)) and n.value is not None
+                        and ast.unparse(n.targets[0] if isinstance(n, ast.Assign) else n.target) == f'self.{IDX[2]}']
+                if len(vals) == 1 and isinstance(vals[0], ast.Constant):
+                    start = ('const', vals[0].value)
+        if start is not None:
+            ctx.ob('decode-loop', 'cursor-starts-at-zero', start == ('const', 0),
+                   f'the read cursor starts at {show(start)}: decoding must begin with the first byte of the input', py.where('deserialize', mb))
+        else:
+            ctx.advisory('deserialize: the initial value of the read cursor could not be determined (rule cursor-starts-at-zero not instantiated)')
     ok_rl = bool(rls)
     for rl, owner in rls:
         sn = selfname_of(rl, owner)
@@ -266,6 +291,29 @@ def run(ctx):
         if ok1:
             defs = [n for n in ast.walk(rl) if isinstance(n, ast.Assign) and isinstance(n.targets[0], ast.Name) and n.targets[0].id == bound]
             ok1 = len(defs) == 1 and is_nb(defs[0].value)
+        # ... and what was read is what is handed back, in order: the loop appends each operand to one list, which (as it is, or as
+        # a tuple) is every return value; the comprehension form is returned directly
+        if ok1:
+            rets_ = [r for r in ast.walk(rl) if isinstance(r, ast.Return)]
+
+            def unwrap(e):
+                while isinstance(e, ast.Call) and isinstance(e.func, ast.Name) and e.func.id in ('tuple', 'list') and len(e.args) == 1:
+                    e = e.args[0]
+                return e
+            if loops_:
+                lp_ = loops_[0]
+                held = {n.targets[0].id for n in ast.walk(lp_) if isinstance(n, ast.Assign) and isinstance(n.targets[0], ast.Name) and is_nb(n.value)}
+                apps = [c for c in ast.walk(lp_) if isinstance(c, ast.Call) and isinstance(c.func, ast.Attribute) and c.func.attr == 'append'
+                        and isinstance(c.func.value, ast.Name) and len(c.args) == 1
+                        and (is_nb(c.args[0]) or isinstance(c.args[0], ast.Name) and c.args[0].id in held)]
+                top_level = [st for st in lp_.body if any(c is x for c in apps for x in ast.walk(st))]
+                ok_ret = len(apps) == 1 and len(top_level) == 1 and isinstance(top_level[0], ast.Expr) and bool(rets_) \
+                    and all(r.value is not None and isinstance(unwrap(r.value), ast.Name) and unwrap(r.value).id == apps[0].func.value.id for r in rets_)
+            else:
+                ok_ret = bool(rets_) and all(r.value is not None and (unwrap(r.value) is comps[0] or isinstance(unwrap(r.value), ast.Name)) for r in rets_)
+            ctx.ob('decode-loop', 'list-reader-returns-what-it-read', ok_ret,
+                   f'{rl.name} must hand back every operand it read, in order (the elements are appended to one list unconditionally and that '
+                   f'list is what is returned): a list that loses elements replays a metavariable with other constraints', py.where('deserialize', rl))
         ok_rl = ok_rl and ok1
     ctx.ob('decode-loop', 'lists-read-through-checked-reader', ok_rl,
            'the list reader must read a length with the operand reader and then exactly that many operands with it',
@@ -304,6 +352,12 @@ def run(ctx):
                 return h, None
         return None
     ev = PyEval(resolver=resolver)
+    # nested helpers of the decoder that are not readers (`peek_top_two()`) are closures: evaluated in place
+    for g_ in fn.body:
+        if isinstance(g_, ast.FunctionDef) and id(g_) not in role and not any(isinstance(x, (ast.For, ast.While, ast.Yield, ast.YieldFrom)) for x in ast.walk(g_)) \
+                and g_.name not in env1:
+            env1[g_.name] = ('localdef', g_.name, id(g_))
+            ev.localdefs[id(g_)] = g_
     direct_mb = []
     for op in sorted(writer):
         meths = sorted({m for m, _c in writer[op]})
@@ -337,6 +391,7 @@ def run(ctx):
                      and e.value[1][2] in PM.INTERP_METHODS]
             calls_per_path.append((p, calls))
         if op == 'Publish':
+            publish_phases._raising = [p for p in paths if p.end[0] == 'raise']
             publish_phases(ctx, py, acc, calls_per_path, where)
             continue
         if op == 'Instantiate':
@@ -395,9 +450,14 @@ def run(ctx):
                 params = [a.arg for a in st.node.args.args[1:]]
                 used = {}
                 probs = []
-                for pname, arg in zip(params, c[2]):
+                for pname, arg in list(zip(params, c[2])) + [(k_, v_) for k_, v_ in c[3] if k_ in params]:
                     s = slot_of(arg)
                     if s is None:
+                        if pname in binds:
+                            # the tracker compares this parameter with a stack slot: anything else (the bottom of the stack, a fresh
+                            # object) replays another call, or none
+                            from ..core.pyeval import show as _sh
+                            probs.append(f'{pname} is `{_sh(arg)[:40]}`, not the stack slot the tracker expects ({_slot_txt(binds[pname])})')
                         continue
                     if pname in binds and binds[pname] != s:
                         probs.append(f'{pname} is read from {_slot_txt(s)} but the tracker expects it at {_slot_txt(binds[pname])}')
@@ -406,6 +466,15 @@ def run(ctx):
                     used[pname] = s
                 ctx.ob('reader-slots', f'{op}/{meth}', not probs, f'{op}: ' + '; '.join(probs), where,
                        facts={'reader': {k: _slot_txt(v) for k, v in used.items()}, 'tracker': {k: _slot_txt(v) for k, v in binds.items()}})
+                # (3a) Load: the entry replayed is the memory entry the operand read addresses
+                if op == 'Load' and meth == 'load' and 'term' in params:
+                    targ = dict(zip(params, c[2])).get('term')
+                    reads_ = [x[-1] for x in rd if x[0] == 'S']
+                    ok_l = targ is not None and len(reads_) == 1 and targ == ('sub', ('attr', INTERP, 'memory'), reads_[0])
+                    from ..core.pyeval import show as _sh2
+                    ctx.ob('reader-slots', 'Load/term-is-memory-at-operand', ok_l,
+                           f'Load must replay load(<label>, interpreter.memory[<the operand read>]); the term handed over is '
+                           f'`{_sh2(targ)[:60] if targ is not None else "?"}`', where)
                 # (3b) operand order: the k-th operand the serializer writes comes from parameter p_k of the call; the deserializer must
                 #      hand the k-th operand it reads to that same parameter (a swap replays another term although the layout agrees)
                 for meth_w, case in writer[op]:
@@ -462,6 +531,7 @@ def run(ctx):
                         else:
                             args.append(a)
                     got_by_param = dict(zip(params, args))
+                    got_by_param.update({k_: v_ for k_, v_ in c[3] if k_ in params})
                     ctx.require(all(pn in got_by_param for pn in W),
                                 f'deserialize_instructions/{op}: cannot tell which argument of {meth}() receives the operands read '
                                 f'(unpacked sequence that is not a counted sequence of reads)')
@@ -509,7 +579,9 @@ def seq_order(v, n_name):
     """tiny algebra over the sequences of the Instantiate branch.  -> ('ids'|'slots', 'fwd'|'rev') | ('pairs', a, b, order) | ('unordered', why) | None
     canonical forward order: ids as read from the stream; stack slots from the top downwards"""
     if v[0] == 'comp' and v[1] in ('listcomp', 'gen') and v[2][0] == 'call' and v[2][1] == ('name', 'next_byte') and len(v[3]) == 1:
-        return ('ids', 'fwd')
+        it = v[3][0][1]
+        cnt = it[2][0] if it[0] == 'call' and it[1] == ('name', 'range') and len(it[2]) == 1 else None
+        return ('ids', 'fwd', cnt)
     if v[0] == 'comp' and v[1] in ('listcomp', 'gen') and len(v[3]) == 1 and not v[3][0][2]:
         # [(a, b) for a, b in S] / [x for x in S]: the elements of S in order
         names = [x.strip() for x in v[3][0][0].strip('()').split(',')]
@@ -520,7 +592,12 @@ def seq_order(v, n_name):
         lo, hi = v[2][1], v[2][2]
         # stack[-(n + 1):-1]  = the n items below the top, bottom to top
         if hi == ('const', -1) and lo is not None and lo[0] == 'unop' and lo[1] == 'USub':
-            return ('slots', 'rev')
+            # -(n + 1): the count of entries taken is n
+            o = lo[2]
+            cnt = None
+            if o[0] == 'binop' and o[1] == 'Add' and ('const', 1) in (o[2], o[3]):
+                cnt = o[3] if o[2] == ('const', 1) else o[2]
+            return ('slots', 'rev', cnt)
         return None
     if v[0] == 'call' and v[1][0] == 'name':
         f, args = v[1][1], v[2]
@@ -536,7 +613,7 @@ def seq_order(v, n_name):
                 return ('pairs', inner[1], inner[2], 'rev' if inner[3] == 'fwd' else 'fwd')
             if inner[0] == 'unordered':
                 return inner
-            return (inner[0], 'rev' if inner[1] == 'fwd' else 'fwd')
+            return (inner[0], 'rev' if inner[1] == 'fwd' else 'fwd') + tuple(inner[2:])
         if f == 'sorted' and len(args) >= 1:
             inner = seq_order(args[0], n_name)
             return ('unordered', f'{inner[0] if inner else "values"} are re-ordered by value (sorted)')
@@ -576,12 +653,27 @@ def instantiate_pairing(ctx, py, calls_per_path, where):
                         ids = a if a[0] == 'ids' else b
                         slots = b if a[0] == 'ids' else a
                         positional = ids[1] == slots[1]          # i-th id <-> i-th from the top (both forward or both reversed)
+                        # the plugs are the n entries directly below the top, n being the number of ids read
+                        def count_of(v):
+                            # len([.. for _ in range(X)]) is X
+                            if v is not None and v[0] == 'call' and v[1] == ('name', 'len') and len(v[2]) == 1 and v[2][0][0] == 'comp' \
+                                    and len(v[2][0][3]) == 1 and not v[2][0][3][0][2]:
+                                it_ = v[2][0][3][0][1]
+                                if it_[0] == 'call' and it_[1] == ('name', 'range') and len(it_[2]) == 1:
+                                    return it_[2][0]
+                            return v
+                        run_ok = len(ids) > 2 and len(slots) > 2 and ids[2] is not None and count_of(ids[2]) == count_of(slots[2])
+                        keys_first = a[0] == 'ids'                 # dict(zip(<ids>, <plugs>)): the ids are the keys
                         # insertion order: zip runs in the direction of its operands; `order` flips it once more
                         zip_dir = ids[1]                          # 'fwd' = top first
                         final_dir = zip_dir if order == 'fwd' else ('rev' if zip_dir == 'fwd' else 'fwd')
                         bottom_up = final_dir == 'rev'
-                        ok = positional and bottom_up
+                        ok = positional and bottom_up and run_ok and keys_first
                         why = ('' if ok else
+                               'the plugs are not the n entries directly below the top of the stack, n being the number of ids read '
+                               f'(ids: {show(ids[2]) if len(ids) > 2 and ids[2] else "?"}, slice: {show(slots[2]) if len(slots) > 2 and slots[2] else "?"} + 1)'
+                               if not run_ok else
+                               'the map is keyed by the plugs and valued by the ids' if not keys_first else
                                ('the i-th id read is paired with the i-th slot from the BOTTOM of the plug run; the serializer (and the checker) '
                                 'pair it with the i-th from the top' if not positional else
                                 'the entries are inserted top-first; the tracker compares list(delta.values()) with the stack bottom-to-top'))
@@ -694,6 +786,35 @@ def publish_phases(ctx, py, acc, calls_per_path, where):
                f'Publish in the {ph} phase must replay {meth}; the deserializer '
                + (f'calls {sorted(set(got))}' if got else 'has no branch for this phase (the instruction is skipped)'), where,
                facts={'calls': got})
+    # what is published is what is on top of the stack: the claim handed to publish_claim in the claim phase, and the theorem the
+    # expected claim is compared with in the proof phase (an error exactly when they differ)
+    TOP = ('slot', 1)
+    for p, calls in calls_per_path:
+        phase = None
+        for c, b in p.conds:
+            if b is True and c[0] == 'cmp' and c[1] == '==':
+                for side in (c[2], c[3]):
+                    if side[0] == 'attr' and side[1] == ('name', 'ExecutionPhase'):
+                        phase = side[2]
+        if phase == 'Claim':
+            for c in calls:
+                if c[1][2] == 'publish_claim' and len(c[2]) == 1:
+                    ctx.ob('reader-publish', 'Claim/operand-is-the-top', slot_of(c[2][0]) == TOP,
+                           f'the claim published in the claim phase is `{show(c[2][0])[:50]}`, not the top of the stack', where)
+    cmp_paths = []
+    for p in list(acc) + [q for q in getattr(publish_phases, '_raising', [])]:
+        for c, b in p.conds:
+            if c[0] == 'cmp' and c[1] in ('!=', '==') and any(_mentions(x, 'conclusion') for x in (c[2], c[3])):
+                differs = b if c[1] == '!=' else (not b)
+                th = c[2] if _mentions(c[2], 'conclusion') else c[3]
+                cmp_paths.append((p, differs, th))
+    for p, differs, th in cmp_paths:
+        ends_raising = p.end[0] == 'raise'
+        base = th[1] if th[0] == 'attr' and th[2] == 'conclusion' else None
+        ctx.ob('reader-publish', 'Proof/compared-with-the-top', base is not None and slot_of(base) == TOP and ends_raising == differs,
+               'in the proof phase the expected claim must be compared with the conclusion of the TOP of the stack, and an error raised '
+               f'exactly when they differ (compared: `{show(th)[:50]}`; the path on which they {"differ" if differs else "agree"} '
+               f'{"raises" if ends_raising else "returns"})', where)
     fall = seen.get('<no phase test>')
     ctx.ob('reader-publish', 'else-raises', not fall and len(acc) <= 3 or False if fall else True,
            'a Publish that matches no phase must raise', where)
